@@ -61,6 +61,14 @@ def build_nfa(src):
     if src["kind"] == "exh_nfa":
         return U.nfa_from_code(src["k"], src["S"], src["code"], src["eps"], prefix=src.get("prefix", "s"))
     rng = random.Random(src["seed"])
+    if src["kind"] == "big_nfa":
+        # many states, dense epsilon moves: reachable subsets with more than 8 members
+        k = rng.randint(10, 12)
+        N = U.random_nfa(rng, k, "ab", eps=rng.choice(EPSS[:3]), prefix="s", density=0.12)
+        for i in range(k - 1):
+            if rng.random() < 0.7:
+                N.delta["s%d" % i, N.epsilon] = set(N.delta["s%d" % i, N.epsilon]) | {"s%d" % (i + 1)}
+        return N
     S = rng.choice(src.get("alphabets", ["a", "ab", "ab", "abc", "", "01"]))
     k = rng.randint(1, src.get("maxk", 6))
     eps = rng.choice(EPSS)
@@ -82,6 +90,9 @@ def nfa_srcs(task):
     elif task["kind"] == "rnd_nfa":
         for i in range(task["count"]):
             yield {"kind": "rnd_nfa", "seed": task["seed"] * 100000 + i, "maxk": task.get("maxk", 6)}
+    elif task["kind"] == "big_nfa":
+        for i in range(task["count"]):
+            yield {"kind": "big_nfa", "seed": task["seed"] * 100000 + i}
 
 
 def hashseeds(tier, seed):
